@@ -130,6 +130,7 @@ Definition replay_event2 (x : rps) (e : val) : rps :=
                       match k_prog (rp_k r) with OAbort :: _ => true | _ => false end in
       {| s_r := replay_event r e; s_sur := s_sur x;
          s_lost := if is_abort then s_lost x ++ queued (rp_k r) else s_lost x |}
+  | VL (VN 6 :: _) => x                       (* a size_hint sample: no effect on the shared state *)
   | _ => {| s_r := replay_event r e; s_sur := s_sur x; s_lost := s_lost x |}
   end.
 
@@ -138,17 +139,18 @@ Record tr := { t_acc : bytes; t_del : bytes; t_abort : bool; t_alive : bool; t_t
                t_fail : list string;
                t_dropped : bool;              (* the body has been dropped (event [4] seen) *)
                t_cur : option (N * bool);     (* operation whose events have begun, and whether the body was already dropped then *)
-               t_buf : N                      (* bytes accepted but not yet handed over (the writer's buffer) *) }.
+               t_buf : N;                     (* bytes accepted but not yet handed over (the writer's buffer) *)
+               t_hints : list (N * N * option N) (* size_hint samples: (bytes delivered so far, lower, upper) *) }.
 Definition tr_set (t : tr) (acc del : bytes) (abort alive : bool) (term : option bool) : tr :=
   {| t_acc := acc; t_del := del; t_abort := abort; t_alive := alive; t_term := term; t_fail := t_fail t;
-     t_dropped := t_dropped t; t_cur := t_cur t; t_buf := t_buf t |}.
+     t_dropped := t_dropped t; t_cur := t_cur t; t_buf := t_buf t; t_hints := t_hints t |}.
 Definition tr_fail (t : tr) (c : string) : tr :=
   {| t_acc := t_acc t; t_del := t_del t; t_abort := t_abort t; t_alive := t_alive t; t_term := t_term t;
      t_fail := if existsb (String.eqb c) (t_fail t) then t_fail t else t_fail t ++ [c];
-     t_dropped := t_dropped t; t_cur := t_cur t; t_buf := t_buf t |}.
+     t_dropped := t_dropped t; t_cur := t_cur t; t_buf := t_buf t; t_hints := t_hints t |}.
 Definition tr_aux (t : tr) (dropped : bool) (cur : option (N * bool)) (buf : N) : tr :=
   {| t_acc := t_acc t; t_del := t_del t; t_abort := t_abort t; t_alive := t_alive t; t_term := t_term t; t_fail := t_fail t;
-     t_dropped := dropped; t_cur := cur; t_buf := buf |}.
+     t_dropped := dropped; t_cur := cur; t_buf := buf; t_hints := t_hints t |}.
 (* operation k begins (its first event): remember whether the body was already gone *)
 Definition tr_begin (t : tr) (k : N) : tr :=
   match t_cur t with
@@ -190,6 +192,10 @@ Definition trace_event (cap : N) (prog : list cop) (t : tr) (e : val) : tr :=
       if t_abort t then tr_fail t' "clean-end-after-abort" else t'
   | VL [VN 3; VN _; VL [VN 6]] => tr_set t (t_acc t) (t_del t) (t_abort t) (t_alive t) (Some false)
   | VL [VN 4] => tr_aux t true (t_cur t) (t_buf t)          (* the body has been dropped *)
+  | VL [VN 6; VN lo; hi] =>                                (* the consumer sampled size_hint() *)
+      {| t_acc := t_acc t; t_del := t_del t; t_abort := t_abort t; t_alive := t_alive t; t_term := t_term t; t_fail := t_fail t;
+         t_dropped := t_dropped t; t_cur := t_cur t; t_buf := t_buf t;
+         t_hints := (lenN (t_del t), lo, match hi with VL [VN h] => Some h | _ => None end) :: t_hints t |}
   | _ => t
   end.
 Fixpoint bytes_contains (needle hay : bytes) : bool :=
@@ -201,8 +207,17 @@ Definition contains_str (needle hay : string) : bool := bytes_contains (bs needl
 Definition trace_clauses (cap : N) (prog : list cop) (trace : list val) : list string :=
   let t := fold_left (trace_event cap prog) trace
              {| t_acc := []; t_del := []; t_abort := false; t_alive := true; t_term := None; t_fail := [];
-                t_dropped := false; t_cur := None; t_buf := 0 |} in
+                t_dropped := false; t_cur := None; t_buf := 0; t_hints := [] |} in
   t_fail t
+  (* C12 under interleavings: at a clean end every sampled hint bounded the bytes that were still to come *)
+  ++ (match t_term t with
+      | Some true =>
+          if forallb (fun s => let '(at_, lo, hi) := s in
+                               let still := lenN (t_del t) - at_ in
+                               (lo <=? still) && match hi with Some h => still <=? h | None => true end) (t_hints t)
+          then [] else ["hint-bounds-bytes-still-to-come"%string]
+      | _ => []
+      end)
   ++ (if starts_with (t_del t) (t_acc t) then [] else ["delivered-bytes-are-not-a-prefix-of-the-accepted-bytes"%string])
   ++ match t_term t with
      | Some true => if beq_bytes (t_del t) (t_acc t) then [] else ["clean-end-without-everything-accepted"%string]
@@ -243,7 +258,8 @@ Definition run_sched (v : val) : val :=
               ++ (if stuck =? 0 then [] else [xclause "consumer-asleep-while-termination-pending"])
               ++ (if timeout =? 0 then [] else [xclause "thread-blocked-deadlock"])
               ++ (if wwl =? 0 then [] else [xclause "wake-while-holding-the-lock"])
-              ++ flat_map (fun c => (* the disconnect clauses are C11's alone *)
+              ++ flat_map (fun c => (* the hint clause is C12's, the disconnect clauses are C11's alone *)
+                                    if contains_str "hint-bounds" c then [finding K_SPECFAIL (bs "C12:" ++ bs c) (VL []) (VL [])] else
                                     (if contains_str "body-was-dropped" c then [] else [finding K_SPECFAIL (bs "C10:" ++ bs c) (VL []) (VL [])])
                                     ++ [finding K_SPECFAIL (bs "C11:" ++ bs c) (VL []) (VL [])]) (trace_clauses cap prog trace)
               ++ (if (negb (stuck =? 0)) && existsb (fun o => match o with OAbort => true | _ => false end) prog
